@@ -11,7 +11,10 @@ import (
 	"testing"
 
 	"github.com/pip-services3-gox/pip-services3-expressions-gox/calculator"
+	"github.com/pip-services3-gox/pip-services3-expressions-gox/calculator/functions"
+	"github.com/pip-services3-gox/pip-services3-expressions-gox/calculator/variables"
 	"github.com/pip-services3-gox/pip-services3-expressions-gox/mustache"
+	"github.com/pip-services3-gox/pip-services3-expressions-gox/tokenizers"
 	"github.com/pip-services3-gox/pip-services3-expressions-gox/variants"
 	"pgregory.net/rapid"
 	"verif/pbt/evid"
@@ -30,6 +33,9 @@ type c19Case struct {
 	Iters    int                 `json:"iters"`
 	Yield    []bool              `json:"yield,omitempty"` // per goroutine: call runtime.Gosched between iterations
 	Procs    int                 `json:"procs,omitempty"`
+	// FuncLists > 0: evaluations cycle through that many user function lists (Fx, Gx defined differently in
+	// each); a "collection" is then the pair (variable collection, function list)
+	FuncLists int `json:"funcLists,omitempty"`
 }
 
 type c19Subject struct {
@@ -51,6 +57,9 @@ func newC19Subject(c c19Case) (*c19Subject, error) {
 
 func (s *c19Subject) k() int {
 	if s.c.Kind == "expression" {
+		if s.c.FuncLists > 0 {
+			return len(s.c.Vars) * s.c.FuncLists
+		}
 		return len(s.c.Vars)
 	}
 	return len(s.c.Maps)
@@ -59,8 +68,13 @@ func (s *c19Subject) k() int {
 // eval evaluates with a *fresh copy* of collection k (each caller owns its collection).
 func (s *c19Subject) eval(k int) string {
 	if s.calc != nil {
-		vc := makeVars(s.c.Vars[k])
-		v, err := s.calc.EvaluateUsingVariablesAndFunctions(vc, nil)
+		vc := makeVars(s.c.Vars[k%len(s.c.Vars)])
+		var fl functions.IFunctionCollection
+		if s.c.FuncLists > 0 {
+			fl = userFunctions(k / len(s.c.Vars) % s.c.FuncLists)
+		}
+		k = k % len(s.c.Vars)
+		v, err := s.calc.EvaluateUsingVariablesAndFunctions(vc, fl)
 		out := resultRepr(v, err)
 		// evaluation must not modify the variable values either
 		for i, b := range s.c.Vars[k] {
@@ -122,6 +136,12 @@ func checkC19(c c19Case) *evid.Fail {
 			}
 			if first[k] == "" {
 				first[k] = got
+				if fresh, err := newC19Subject(c); err == nil {
+					if want := fresh.eval(k); want != got {
+						res = evid.F("differs-from-fresh-instance:"+c.Kind, "%s %q, evaluation %d with collection %d gives %s, a fresh instance gives %s (order %v)", c.Kind, c.Text, i, k, got, want, c.Order)
+						return
+					}
+				}
 			} else if got != first[k] {
 				res = evid.F("not-repeatable:"+c.Kind, "%s %q, evaluation %d with collection %d gives %s, the first evaluation with that collection gave %s (order %v)", c.Kind, c.Text, i, k, got, first[k], c.Order)
 				return
@@ -227,6 +247,10 @@ func genC19(rt *rapid.T, concurrent bool) c19Case {
 			}
 			tree = &node{Op: rapid.SampledFrom([]string{"+", "=", "<", "AND"}).Draw(rt, "dop"), Kids: []*node{call, tree}}
 		}
+		if rapid.IntRange(0, 3).Draw(rt, "userfuncs") == 0 {
+			c.FuncLists = rapid.IntRange(2, 3).Draw(rt, "nlists")
+			tree = &node{Op: "call", Tok: "Array", Kids: []*node{{Op: "call", Tok: "Fx"}, {Op: "call", Tok: "Gx", Kids: []*node{{Op: "var", Tok: "a"}}}, tree}}
+		}
 		c.Text = spellRandom(rt, printTokens(tree, rapid.IntRange(0, 2).Draw(rt, "style"), func() bool { return rapid.IntRange(0, 5).Draw(rt, "xp") == 0 }))
 		for i := 0; i < k; i++ {
 			var bs []binding
@@ -251,8 +275,12 @@ func genC19(rt *rapid.T, concurrent bool) c19Case {
 		}
 	}
 	n := rapid.IntRange(6, 20).Draw(rt, "evals")
+	kk := k
+	if c.FuncLists > 0 {
+		kk = k * c.FuncLists
+	}
 	for i := 0; i < n; i++ {
-		c.Order = append(c.Order, rapid.IntRange(0, k-1).Draw(rt, "which"))
+		c.Order = append(c.Order, rapid.IntRange(0, kk-1).Draw(rt, "which"))
 	}
 	if concurrent {
 		c.Routines = rapid.SampledFrom([]int{2, 3, 4, 8, 16}).Draw(rt, "routines")
@@ -371,4 +399,127 @@ func TestC19_EnumFunctionPurity(t *testing.T) {
 			run([]val{pool[off], pool[(off+3)%len(pool)], pool[(off+7)%len(pool)]})
 		}
 	})
+}
+
+// TestC19Cold_RaceFirstUse must run in a process of its own (the driver does that): goroutines that each own
+// their calculator / tokenizers / template touch every symbol, keyword, function and tokenizer for the first
+// time in the process *concurrently*, without any sequential warm-up, so that lazily initialised shared state
+// (caches filled on first use) is raced while it is still cold. Results are compared among the goroutines and
+// with a sequential evaluation afterwards.
+func TestC19Cold_RaceFirstUse(t *testing.T) {
+	rec := evid.New("C19", "TestC19Cold_RaceFirstUse", "C19", c19Rule+"; cold start: first use of every symbol / keyword / function / tokenizer in the process happens concurrently in goroutines that own separate instances")
+	defer finish(t, rec)
+	exprs := []string{"a <= b", "a >= b", "a <> b", "a != b", "a << 2", "a >> 1", "a < b AND NOT (a > b) OR a = b XOR a IS NULL", "Max(a, b) + Min(a, b) + Sum(a, b, 1)",
+		"If(a < b, 'x', 'y') + 'z'", "c IN Array(a, b, 3)", "a NOT IN Array(1, 2)", "Abs(-a) * 2.5 / 2 % 3 ^ 2", "\"a\" + 1 /* c */", "Contains('abc', 'b')", "Array(1, 2, 3)[1]"}
+	templates := []string{"Hello, {{{NAME}}}{{ #if E }}!{{/if}}{{{^E}}}.{{{/E}}}", "{{#a}}x{{/a}}{{^b}}y{{/b}}{{! c }}", "{{a}}<=<>{{b}}"}
+	inputs := []string{"a <= b <> c << d >= e >> f != g", "'x' \"y\" 1.5e3 -2 # c\n/* d */ // e", "\"a\",\"b\"\r\n1,2\n\r", "{{#if a}}{{{b}}}{{/if}} <= <>"}
+	const G = 16
+	results := make([]string, G)
+	var wg sync.WaitGroup
+	for g := 0; g < G; g++ {
+		wg.Add(1)
+		go func(g int) {
+			defer wg.Done()
+			var sb strings.Builder
+			if f := guard(func() {
+				for i := range exprs {
+					e := exprs[(i+g)%len(exprs)]
+					calc := calculator.NewExpressionCalculator()
+					err := calc.SetExpression(e)
+					v, eerr := calc.EvaluateUsingVariables(makeVars([]binding{{"a", vInt(3)}, {"b", vInt(4)}, {"c", vInt(3)}}))
+					fmt.Fprintf(&sb, "%s => %v %s\n", e, err, resultRepr(v, eerr))
+				}
+				for i := range templates {
+					tp := templates[(i+g)%len(templates)]
+					mt := mustache.NewMustacheTemplate()
+					err := mt.SetTemplate(tp)
+					out, rerr := mt.EvaluateWithVariables(map[string]string{"name": "N", "e": "1", "a": "A"})
+					fmt.Fprintf(&sb, "%s => %v %q %v\n", tp, err, out, rerr)
+				}
+				for i := range inputs {
+					in := inputs[(i+g)%len(inputs)]
+					for _, k := range tokKinds {
+						toks, _ := tokenizeFresh(k, 0, in)
+						fmt.Fprintf(&sb, "%s %q => %s\n", k, in, tksString(toks))
+					}
+				}
+			}); f != nil {
+				fmt.Fprintf(&sb, "PANIC %s %s", f.Sig, f.Msg)
+			}
+			lines := strings.Split(sb.String(), "\n")
+			sortStrings(lines)
+			results[g] = strings.Join(lines, "\n")
+		}(g)
+	}
+	wg.Wait()
+	for g := 0; g < G; g++ {
+		rec.Case(fmt.Sprintf("goroutine %d", g), true, func() interface{} {
+			return fmt.Sprintf("goroutine %d: %d expressions, %d templates, %d inputs x 4 tokenizers, first use", g, len(exprs), len(templates), len(inputs))
+		})
+		if results[g] != results[0] || strings.Contains(results[g], "PANIC") {
+			c := c19Case{Kind: "cold-start", Text: "goroutine " + fmt.Sprint(g)}
+			rec.Fail(evid.F("cold-start:goroutines-disagree", "goroutine %d observed\n%s\n\ngoroutine 0 observed\n%s", g, results[g], results[0]), c)
+			return
+		}
+	}
+}
+
+func sortStrings(s []string) {
+	for i := 1; i < len(s); i++ {
+		for j := i; j > 0 && s[j] < s[j-1]; j-- {
+			s[j], s[j-1] = s[j-1], s[j]
+		}
+	}
+}
+
+// TestC19_EnumInstanceIsolation: configuring or using one instance never shows in another instance
+// (separate instances share nothing).
+func TestC19_EnumInstanceIsolation(t *testing.T) {
+	rec := evid.New("C19", "TestC19_EnumInstanceIsolation", "C19", c19Rule+"; instance isolation: registering symbols, character states, word / blank characters, variables or functions on one instance must not change what another instance of the same kind produces")
+	rec.Exhaustive = true
+	defer finish(t, rec)
+	probe := "a <=> b =>> c ~~ d\t1.5 'q' {{x}} ≠"
+	for _, kind := range tokKinds {
+		want, _ := tokenizeFresh(kind, 0, probe)
+		if f := guard(func() {
+			a := newTokenizer(kind)
+			a.SymbolState().Add("<=>", 77)
+			a.SymbolState().Add("=>>", 78)
+			a.SymbolState().Add("~~", 79)
+			a.SymbolState().Add("≠", 80)
+			if ws, ok := a.WordState().(interface{ SetWordChars(rune, rune, bool) }); ok && a.WordState() != nil {
+				ws.SetWordChars('a', 'b', false)
+			}
+			if at, ok := a.(interface {
+				SetCharacterState(rune, rune, tokenizers.ITokenizerState)
+			}); ok {
+				at.SetCharacterState('c', 'd', a.SymbolState())
+			}
+			tokenizeCapped(a, probe, 1)
+		}); f != nil {
+			rec.Fail(f, c19Case{Kind: "isolation", Text: kind})
+			continue
+		}
+		got, _ := tokenizeFresh(kind, 0, probe)
+		rec.Case("isolation:"+kind, true, func() interface{} {
+			return "reconfigure one " + kind + " tokenizer, then tokenize " + probe + " with another"
+		})
+		if tksString(got) != tksString(want) {
+			rec.Fail(evid.F("instances-share-configuration:"+kind, "after another %s tokenizer was reconfigured, a fresh one tokenizes %q as %s instead of %s", kind, probe, tksString(got), tksString(want)), c19Case{Kind: "isolation", Text: kind})
+		}
+	}
+	// calculators: variables, functions and removed functions of one calculator are invisible to another
+	a := calculator.NewExpressionCalculator()
+	a.DefaultVariables().Add(variables.NewVariable("zz", variants.VariantFromInteger(5)))
+	a.DefaultFunctions().Add(tupFunction("Zf"))
+	a.DefaultFunctions().RemoveByName("Max")
+	a.SetExpression("zz + 1")
+	b := calculator.NewExpressionCalculator()
+	rec.Case("isolation:calculator", true, func() interface{} { return "variables / functions added to or removed from one calculator" })
+	if b.DefaultVariables().FindByName("zz") != nil || b.DefaultFunctions().FindByName("Zf") != nil || b.DefaultFunctions().FindByName("Max") == nil {
+		rec.Fail(evid.F("instances-share-configuration:calculator", "variables or functions of one calculator are visible in another"), c19Case{Kind: "isolation", Text: "calculator"})
+	}
+	if variants.Empty.Type() != variants.Null {
+		rec.Fail(evid.F("shared-empty-variant-modified", "variants.Empty is %s", fromVariant(variants.Empty)), c19Case{Kind: "isolation", Text: "variants.Empty"})
+	}
 }
